@@ -116,7 +116,7 @@ func TestC04Exhaustive(t *testing.T) {
 							viol = fmt.Sprintf("expected runtime error 'no blocks', got %v", a.Err)
 						}
 					case (sel == "" || sel == ":1") && cand != 1:
-						if !isRuntimeErr(a.Err) || !strings.Contains(a.Err.Error(), "expected just 1") {
+						if !isRuntimeErr(a.Err) || !strings.Contains(a.Err.Error(), fmt.Sprintf("found %d blocks of type s", cand)) {
 							viol = fmt.Sprintf("expected runtime error 'expected just 1', got %v", a.Err)
 						}
 					default:
